@@ -239,6 +239,7 @@ def model_spec(draw, prof=None):
                     iv['units'] = MILD[UNIT2FAMILY[iv['units']]][0]
 
     # ---- component data -----------------------------------------------------------------------------
+    scaling_flavour = {}
     for c in comps[first:]:
         nin = sum(int(np.prod(v['shape'])) for v in c['inputs'])
         nout = sum(int(np.prod(v['shape'])) for v in c['outputs'])
@@ -257,19 +258,28 @@ def model_spec(draw, prof=None):
             if c['style'] == 'matfree':
                 c['style'] = 'dense'
         if prof['out_scaling']:
+            # every top-level branch of the model has a scaling flavour: several code paths test the group-wide flags
+            # _has_output_scaling / _has_resid_scaling, so a group in which ONLY residuals (or only ref, or only ref0)
+            # are scaled is a configuration of its own that independent per-variable draws almost never produce
+            top = c['path'][0] if c['path'] else ''
+            if top not in scaling_flavour:
+                scaling_flavour[top] = draw(st.sampled_from(['mixed', 'mixed', 'mixed', 'res_ref_only', 'ref0_only', 'ref_only']))
+            flav = scaling_flavour[top]
+            p_ref, p_ref0, p_res = {'mixed': (0.55, 0.3, 0.4), 'res_ref_only': (0.0, 0.0, 0.7),
+                                    'ref0_only': (0.0, 0.6, 0.0), 'ref_only': (0.7, 0.0, 0.0)}[flav]
             for v in c['outputs']:
                 n = int(np.prod(v['shape']))
                 sc = st.sampled_from([-100.0, -3.0, -0.5, 0.01, 0.5, 2.0, 7.0, 250.0])
                 # ref, ref0 and res_ref are drawn independently (res_ref alone is a configuration of its own: it
                 # scales residuals while outputs stay unscaled)
-                if chance(draw, 0.55):
+                if p_ref and chance(draw, p_ref):
                     v['ref'] = draw(sc) if draw(st.booleans()) else draw(st.lists(sc, min_size=n, max_size=n))
-                if chance(draw, 0.3):
+                if p_ref0 and chance(draw, p_ref0):
                     r0 = draw(st.sampled_from([-5.0, -1.0, 0.25, 1.0, 3.0]))
                     refs = v['ref'] if isinstance(v.get('ref'), list) else [v.get('ref', 1.0)]
                     if all(abs(r - r0) > 1e-3 for r in refs):
                         v['ref0'] = r0
-                if chance(draw, 0.4):
+                if p_res and chance(draw, p_res):
                     v['res_ref'] = draw(st.sampled_from([0.01, 0.125, 0.5, 3.0, 40.0, 100.0]))
 
     # ---- solvers per group -------------------------------------------------------------------------
@@ -292,7 +302,10 @@ def model_spec(draw, prof=None):
                 gs['ln'] = draw(st.sampled_from(prof['cyc_ln']))
         else:
             gs['nl'] = 'runonce'
-            gs['ln'] = draw(st.sampled_from(['runonce', 'runonce', 'direct', 'krylov']))
+            # block solvers are valid on feed-forward groups too (they converge after one or two sweeps) and drive the
+            # sub-groups' solvers with other scopes than LinearRunOnce does
+            gs['ln'] = draw(st.sampled_from(['runonce', 'runonce', 'direct', 'krylov'] +
+                                            [s for s in ('lnbgs', 'lnbj') if s in prof['cyc_ln']]))
         if gs['ln'] in ('direct', 'krylov') and prof['assembled'] and draw(st.booleans()):
             gs['ln_opts'] = {'assemble_jac': True}
             gs['jac_type'] = draw(st.sampled_from(['dense', 'csc'] if gs['ln'] == 'direct' else ['dense', 'csc', 'csr']))
